@@ -149,7 +149,7 @@ class ClassInfo:
         self.base_names = [norm_text(b) for b in node.bases]
         self.copy_hooks: Dict[str, FunctionInfo] = {}
         for st in node.body:
-            if isinstance(st, ast.FunctionDef) and st.name == "__deepcopy__":
+            if isinstance(st, ast.FunctionDef) and st.name in ("__deepcopy__", "__copy__"):
                 # a deep-copy hook is not part of the analysed program: copy.deepcopy(x) is modelled as the structural deep
                 # copy, and C20 R20.4 verifies that the hook is one (every field deep-copied, or immutable, or a fresh
                 # container of immutable elements); a hook it cannot verify stops the analysis
@@ -533,6 +533,58 @@ class Repo:
                         continue
                 # free names must mean the same at the call site: resolved per call site below
                 cands[f.qual] = f
+        # private instance methods (`self._on_carrier(p)`, `other._lies_in(self)`): the inverse of "extract method".  A call
+        # is read as the method's body when the method meant is known without type inference: the name is defined by one
+        # class only, or the receiver is `self` and the caller's own class defines it (and no subclass overrides it).
+        by_method: Dict[str, List[FunctionInfo]] = {}
+        all_defs: Dict[str, int] = {}
+        for m in self.core_modules():
+            for c_ in m.classes.values():
+                for f in c_.methods.values():
+                    all_defs[f.name] = all_defs.get(f.name, 0) + 1
+                    n = f.node
+                    if not f.name.startswith("_") or f.name.startswith("__") or f.is_generator or n.decorator_list or f.self_name is None:
+                        continue
+                    a = n.args
+                    if a.vararg or a.kwarg or a.kwonlyargs or a.posonlyargs:
+                        continue
+                    if any(isinstance(x, (ast.FunctionDef, ast.AsyncFunctionDef, ast.Lambda, ast.ClassDef, ast.Global, ast.Nonlocal,
+                                          ast.Yield, ast.YieldFrom, ast.Await, ast.Try, ast.With))
+                           for x in ast.walk(n) if x is not n):
+                        continue
+                    if any(isinstance(x, ast.Call) and isinstance(x.func, ast.Name) and x.func.id == "super" for x in ast.walk(n)):
+                        continue
+                    body = [s_ for s_ in n.body if not (isinstance(s_, ast.Expr) and isinstance(s_.value, ast.Constant))]
+                    if not body or sum(1 for _ in ast.walk(n) if isinstance(_, ast.stmt)) > 40:
+                        continue
+                    rets = [x for x in ast.walk(n) if isinstance(x, ast.Return)]
+                    if any(r is not body[-1] for r in rets):
+                        if any(isinstance(x, (ast.For, ast.While)) and any(isinstance(y, ast.Return) for y in ast.walk(x)) for x in ast.walk(n)):
+                            continue
+                        if sum(1 for x in ast.walk(n) if isinstance(x, ast.If) and any(isinstance(y, ast.Return) for y in ast.walk(x))) > 5:
+                            continue
+                    # stores into the receiver's fields stay method calls (effects / field tables are keyed by the method)
+                    if any(isinstance(x, ast.Attribute) and isinstance(x.ctx, (ast.Store, ast.Del)) for x in ast.walk(n)):
+                        continue
+                    cands[f.qual] = f
+                    by_method.setdefault(f.name, []).append(f)
+
+        def method_meant(caller: FunctionInfo, c) -> Optional[FunctionInfo]:
+            name, recv = c.func.attr, c.func.value.id
+            lst = by_method.get(name)
+            if not lst:
+                return None
+            if len(lst) == 1 and all_defs.get(name) == 1:
+                return lst[0]
+            if recv == caller.self_name and caller.cls is not None:
+                m_ = caller.cls.methods.get(name)
+                if m_ is not None and m_.qual in cands:
+                    for mod_ in self.core_modules():
+                        for c2 in mod_.classes.values():
+                            if c2 is not caller.cls and caller.cls in c2.mro() and name in c2.methods:
+                                return None
+                    return m_
+            return None
 
         def callees(f: FunctionInfo) -> Set[str]:
             out = set()
@@ -541,6 +593,8 @@ class Repo:
                     b = f.resolve(c.func.id)
                     if b is not None and b.kind == "func" and b.target.qual in cands:
                         out.add(b.target.qual)
+                elif isinstance(c, ast.Call) and isinstance(c.func, ast.Attribute) and c.func.attr in by_method:
+                    out |= {m_.qual for m_ in by_method[c.func.attr]}
             return out
         # drop helpers on a call cycle
         graph = {q: callees(f) for q, f in cands.items()}
@@ -645,7 +699,7 @@ class Repo:
                         uses[x.id] = uses.get(x.id, 0) + 1
             ren: Dict[str, ast.AST] = {}
             pro = []
-            for p_, a_ in zip(h.params, call.args):
+            for p_, a_ in zip(h.params, getattr(call, "_inl_args", None) or call.args):
                 if p_ not in assigned and (simple_arg(a_) or uses.get(p_, 0) <= 1):
                     ren[p_] = a_
                 else:
@@ -724,6 +778,22 @@ class Repo:
             return out
 
         def inlinable_call(caller: FunctionInfo, c) -> Optional[FunctionInfo]:
+            if isinstance(c, ast.Call) and isinstance(c.func, ast.Attribute) and isinstance(c.func.value, ast.Name) and not c.keywords \
+                    and not any(isinstance(a, ast.Starred) for a in c.args) and by_method.get(c.func.attr):
+                h = method_meant(caller, c)
+                if h is None or h is caller or h.qual not in cands:
+                    return None
+                args = [ast.copy_location(ast.Name(id=c.func.value.id, ctx=ast.Load()), c)] + list(c.args)
+                if len(args) < len(h.params):
+                    ds = list(h.defaults)
+                    missing = h.params[len(args):]
+                    dmap = dict(zip(h.params[len(h.params) - len(ds):], ds))
+                    if all(m_ in dmap and isinstance(dmap[m_], ast.Constant) for m_ in missing):
+                        args = args + [copy.deepcopy(dmap[m_]) for m_ in missing]
+                if len(args) != len(h.params) or same_bindings(caller, h) is None:
+                    return None
+                c._inl_args = args
+                return h
             if not (isinstance(c, ast.Call) and isinstance(c.func, ast.Name) and not c.keywords
                     and not any(isinstance(a, ast.Starred) for a in c.args)):
                 return None
@@ -790,6 +860,8 @@ class Repo:
             return out
 
         def expr_inline(caller: FunctionInfo, st, depth: int):
+            nest = [0]
+
             class E(ast.NodeTransformer):
                 def visit_Call(self_, c):
                     self_.generic_visit(c)
@@ -807,7 +879,15 @@ class Repo:
                             defs[a_.targets[0].id] = v
                         for nm, dv in defs.items():
                             ret = _subst_name(ret, nm, dv)
-                        return ast.copy_location(ret, c)
+                        ret = ast.copy_location(ret, c)
+                        # helper calls inside the helper's own expression (helpers on a call cycle are no candidates)
+                        if nest[0] < 4:
+                            nest[0] += 1
+                            try:
+                                ret = self_.visit(ret)
+                            finally:
+                                nest[0] -= 1
+                        return ret
                     return c
 
                 def visit_FunctionDef(self_, n):
